@@ -535,6 +535,30 @@ def oracle_case(case, out):
             c = call[2][0]
             if not all(close(g, c) for g in got):
                 bad.append((k, "%s%s of the constant %r returned %r" % (call[0], _opts(call), c, got[:6])))
+    # idempotence: an identical call repeated on the same, unmoved mesh object returns what the first call returned
+    first = {}
+    for k, call, res, T in items:
+        if call[0] == "move":
+            continue
+        sig = (id(T), json.dumps(call, sort_keys=True))
+        if sig not in first:
+            first[sig] = (k, res)
+            continue
+        k0, r0 = first[sig]
+        if any(kk == k or kk == k0 for kk, _ in bad):
+            continue       # already reported against the definition
+        if ("ok" in r0) != ("ok" in res):
+            bad.append((k, "%s%s: call %d and its repetition %d do not behave alike (%s / %s)" % (call[0], _opts(call), k0, k, r0, res)))
+        elif "ok" in res and finite(res["ok"]) and finite(r0["ok"]):
+            def same_value(a, b):
+                if isinstance(a, list):
+                    return isinstance(b, list) and len(a) == len(b) and all(same_value(x, y) for x, y in zip(a, b))
+                if isinstance(a, int) and not isinstance(a, bool):
+                    return a == b
+                return close(b, a)
+            if not same_value(r0["ok"], res["ok"]):
+                bad.append((k, "%s%s: repeated on the same unmoved mesh, call %d returned %r but call %d had returned %r"
+                            % (call[0], _opts(call), k, str(res["ok"])[:120], k0, str(r0["ok"])[:120])))
     return bad
 
 
@@ -931,12 +955,18 @@ def run(ctx):
                       "meta": {"kind": "nonconvex", "family": "nonconvex-%d" % nid, "variant": "renumber", "renumber": ren}}]
         fam_index.append((len(cases), len(fam)))
         cases += fam
+    n_rep = 30 if quick else 300
+    for rid in range(n_rep):
+        kind, V, F, C, script = G.gen_repeat(ctx.rng)
+        cases.append({"V": [[float(x) for x in p] for p in V], "F": F, "C": C, "script": script,
+                      "meta": {"kind": kind, "family": "repeat-%d" % rid, "variant": "repeat"}})
     n_scen = 36 if quick else 400
     for sid in range(n_scen):
         kind, V, F, C, script = G.gen_scenario(ctx.rng)
         cases.append({"V": [[float(x) for x in p] for p in V], "F": F, "C": C, "script": script,
                       "meta": {"kind": kind, "family": "scenario-%d" % sid, "variant": "scenario"}})
-    ctx.log("generated %d cases in %d families + %d move scenarios" % (len(cases), n_fam, n_scen))
+    ctx.log("generated %d cases in %d families + %d non-convex families + %d repeated-call scripts + %d move scenarios"
+            % (len(cases), n_fam, n_nc, n_rep, n_scen))
     outs = run_driver(cases, timeout=900 if quick else 3000)
     ctx.log("implementation ran")
 
